@@ -131,21 +131,20 @@ fn check_inner(c: &Case, exdev_at: Option<usize>) -> Option<(String, String)> {
             Ok(Err(e)) => return Some(("roll-error".into(), format!("roll #{} failed: {}", k, e))),
             Ok(Ok(())) => {}
         }
-        // reference: shift register over the window; slots directly above a gap may keep their stale content or vanish
-        let mut optional: BTreeSet<String> = BTreeSet::new();
-        if !c.delete_roller && c.count > 0 {
+        // reference.  A window without holes (occupied slots = 0..k) is a shift register and must match exactly.
+        // For a window with holes the property only promises tolerance, so every outcome consistent with it is
+        // accepted: the rolled file at the first slot, and behind it, in slot order, an order-preserving selection
+        // of the archives that were there (each intact) — the implementation may close the hole or carry it along.
+        let occupied: Vec<usize> = (0..c.count as usize).filter(|i| model.contains_key(&window[*i])).collect();
+        let holes = !c.delete_roller && c.count > 0 && occupied.iter().enumerate().any(|(k, i)| k != *i);
+        let before_in_order: Vec<Vec<u8>> = occupied.iter().map(|i| model[&window[*i]].clone()).collect();
+        let optional: BTreeSet<String> = BTreeSet::new();
+        if !c.delete_roller && c.count > 0 && !holes {
             for o in (0..c.count.saturating_sub(1)).rev() {
                 let src = &window[o as usize];
                 let dst = &window[o as usize + 1];
-                match model.remove(src) {
-                    Some(v) => {
-                        model.insert(dst.clone(), v);
-                    }
-                    None => {
-                        if model.contains_key(dst) {
-                            optional.insert(dst.clone());
-                        }
-                    }
+                if let Some(v) = model.remove(src) {
+                    model.insert(dst.clone(), v);
                 }
             }
             model.insert(window[0].clone(), content.clone());
@@ -165,6 +164,29 @@ fn check_inner(c: &Case, exdev_at: Option<usize>) -> Option<(String, String)> {
                         got.insert(name.clone(), d);
                     }
                     Err(e) => return Some(("archive:corrupt-compressed-file".into(), format!("{}: {}", name, e))),
+                }
+            }
+        }
+        if holes {
+            let first = got.get(&window[0]);
+            if first != Some(&content) {
+                return Some(("window:rolled-file-not-at-first-slot".into(), format!("after roll #{}: {} holds {:?}, expected the rolled file {:?}", k, window[0], first.map(|b| show_bytes(b)), show_bytes(&content))));
+            }
+            let behind: Vec<&Vec<u8>> = window.iter().skip(1).filter_map(|w| got.get(w)).collect();
+            let mut it = before_in_order.iter();
+            for b in &behind {
+                if !it.any(|x| x == *b) {
+                    return Some((
+                        "window:order-or-content-with-holes".into(),
+                        format!("after roll #{}: behind the rolled file the window holds {:?}, which is not an order-preserving selection of the former archives {:?}", k, behind.iter().map(|b| show_bytes(b)).collect::<Vec<_>>(), before_in_order.iter().map(|b| show_bytes(b)).collect::<Vec<_>>()),
+                    ));
+                }
+            }
+            // adopt the window the implementation produced; everything outside the window is compared as usual
+            for w in &window {
+                model.remove(w);
+                if let Some(b) = got.get(w) {
+                    model.insert(w.clone(), b.clone());
                 }
             }
         }
@@ -345,7 +367,7 @@ pub fn run(ctx: &Ctx) -> Report {
             std::process::exit(2);
         }
     }
-    rep.assume("the slot directly above a gap may keep its stale archive or lose it (the property only promises tolerance)");
+    rep.assume("a window with holes (missing intermediate archives) is only 'tolerated' by the property: accepted is the rolled file at the first slot followed, in slot order, by an order-preserving selection of the former archives, each intact; windows without holes must match the shift register exactly");
     rep.assume("copy+delete fallback of move_file (rename failing with EXDEV) is covered by the fault engine, see exdev_* keys when present");
     rep
 }
